@@ -1357,6 +1357,11 @@ func scriptKey(s script) string {
 
 func layerSeq(h *harness.H) {
 	h.AddRule("seq: one case = one PRNG-generated history of 20-80 ontology operations (define/delete resource, define/delete relationship single and one-to-many over 4 relationship types, begin/commit/abort) over 4-11 identifiers drawn from a pool of prefix/suffix-related type:key strings; distinct = distinct operation script; non-trivial = at least one relationship accepted and at least one traversal compared against a non-empty expected set")
+	h.Assume("one transaction is open at a time and nothing writes directly while it is open (the statement quantifies over operations inside committed and aborted transactions, not over concurrent writers)")
+	h.Assume("identifiers are type:key strings over real resource types; keys may contain ':' but no identifier contains the relationship key separator '->'")
+	h.Assume("a traversal that STARTS at a non-existent identifier may answer 'not found' instead of an empty result")
+	h.Assume("DefineFromOneToManyRelationships with an empty target list: no outcome demanded")
+	h.Assume("every history runs in a child process (fatal errors such as stack overflow are observations, classified from the child's stderr)")
 	n := h.N(3000, 120000)
 	parallel(h, "seq", n, func(w *worker, c int) {
 		r := h.Rand("seq", c)
